@@ -86,10 +86,16 @@ func (r *ContentReader) parseComments() {
 
 	var found bool
 	var skip skipMode
+	// This line was already excluded by a comment on one of the previous lines,
+	// file level comments found on it must not have any effect.
+	excluded := r.skipNext
 	for _, comment := range lineComments {
 		// nolint:exhaustive
 		switch comment.Type {
 		case comments.IgnoreFileType:
+			if excluded {
+				continue
+			}
 			skip = skipFile
 			found = true
 			r.diagnostics = append(r.diagnostics, diags.Diagnostic{
@@ -117,21 +123,29 @@ func (r *ContentReader) parseComments() {
 			skip = skipNextLine
 			found = true
 		case comments.FileOwnerType:
-			r.comments = append(r.comments, comment)
+			if !excluded {
+				r.comments = append(r.comments, comment)
+			}
 		case comments.RuleOwnerType:
 			// pass
 		case comments.FileDisableType:
-			r.comments = append(r.comments, comment)
+			if !excluded {
+				r.comments = append(r.comments, comment)
+			}
 		case comments.DisableType:
 			// pass
 		case comments.FileSnoozeType:
-			r.comments = append(r.comments, comment)
+			if !excluded {
+				r.comments = append(r.comments, comment)
+			}
 		case comments.SnoozeType:
 			// pass
 		case comments.RuleSetType:
 			// pass
 		case comments.InvalidComment:
-			r.comments = append(r.comments, comment)
+			if !excluded {
+				r.comments = append(r.comments, comment)
+			}
 		}
 	}
 	switch {
@@ -161,7 +175,8 @@ func (r *ContentReader) parseComments() {
 			r.inBegin = false
 		}
 	case r.skipNext:
-		r.emptyCurrentLine(lineComments)
+		// Remove everything, including any comments.
+		r.emptyCurrentLine(nil)
 		if r.autoReset {
 			r.skipNext = false
 		}
